@@ -16,64 +16,12 @@ import (
 
 type J = map[string]interface{}
 
-// unterminatedBacktick mirrors the tokenizer rule that makes sqlparser spin on
-// a backtick-quoted identifier that is not closed before the end of the input
-// (it protects the harness's own direct calls of sqlparser.Parse).
-func unterminatedBacktick(s string) bool {
-	n := len(s)
-	for i := 0; i < n; {
-		c := s[i]
-		switch {
-		case c == '\'' || c == '"':
-			closed := false
-			i++
-			for i < n && !closed {
-				ch := s[i]
-				i++
-				if ch == '\\' {
-					i++
-				} else if ch == c {
-					if i < n && s[i] == c {
-						i++
-					} else {
-						closed = true
-					}
-				}
-			}
-			if !closed {
-				return false
-			}
-		case c == '`':
-			end := -1
-			if i+2 <= n {
-				end = strings.IndexByte(s[i+2:], '`')
-			}
-			if end < 0 {
-				return true
-			}
-			i += 2 + end + 1
-		case c == '/' && i+1 < n && s[i+1] == '*':
-			end := strings.Index(s[i+2:], "*/")
-			if end < 0 {
-				return false
-			}
-			i += 2 + end + 2
-		case (c == '-' && i+1 < n && s[i+1] == '-') || (c == '/' && i+1 < n && s[i+1] == '/'):
-			end := strings.IndexByte(s[i:], '\n')
-			if end < 0 {
-				return false
-			}
-			i += end + 1
-		default:
-			i++
-		}
-	}
-	return false
-}
-
 // libParse calls sqlparser.Parse unless the tokenizer would not terminate.
 func libParse(s string) (sqlparser.Statement, bool) {
-	if unterminatedBacktick(s) {
+	// the reference lexer (a port of the tokenizer that reports instead of looping) protects the
+	// harness process: the real tokenizer never returns from a backtick-quoted identifier that is
+	// still open at the end of the input
+	if loops, _ := refLex(s); loops {
 		return nil, false
 	}
 	st, err := sqlparser.Parse(s)
